@@ -19,6 +19,8 @@ pub enum Site
 	RightOperand,
 	RightOfComparison,
 	Index,
+	/// a primitive member of a structure literal
+	LiteralMember,
 }
 
 impl Site
@@ -34,6 +36,7 @@ impl Site
 			Site::RightOperand => "right operand".to_string(),
 			Site::RightOfComparison => "right side of comparison".to_string(),
 			Site::Index => "array index".to_string(),
+			Site::LiteralMember => "member of a structure literal".to_string(),
 		}
 	}
 }
@@ -73,7 +76,7 @@ struct Editor<'a, 'c, 'd>
 	kind: usize,
 	seen: usize,
 	/// sites per kind (first pass)
-	per_kind: [usize; 7],
+	per_kind: [usize; 8],
 	done: Option<Site>,
 }
 
@@ -202,10 +205,21 @@ impl<'a, 'c, 'd> Editor<'a, 'c, 'd>
 				let f = *f;
 				self.args(f, args);
 			}
-			Expr::StructLit(_, ms) =>
+			Expr::StructLit(si, ms) =>
 			{
-				for (_, m) in ms.iter_mut()
+				let decl = self.structs[*si].clone();
+				for (name, m) in ms.iter_mut()
 				{
+					let declared = decl.members.iter().find(|(n, _)| n == name).and_then(|(_, t)| t.prim());
+					if let Some(p) = declared
+					{
+						if self.at_site(7)
+						{
+							*m = other_literal(self.c, p);
+							self.done = Some(Site::LiteralMember);
+							continue;
+						}
+					}
 					self.expr(m);
 				}
 			}
@@ -341,14 +355,14 @@ pub fn break_one_type(prog: &mut Program, c: &mut Choices) -> Option<Site>
 			target: None,
 			kind: usize::MAX,
 			seen: 0,
-			per_kind: [0; 7],
+			per_kind: [0; 8],
 			done: None,
 		};
 		ed.program(&mut funcs);
 		ed.per_kind
 	};
 	// the kind first (arguments are rare and matter most), then the site
-	let kinds: Vec<usize> = (0..7).filter(|k| per_kind[*k] > 0).collect();
+	let kinds: Vec<usize> = (0..8).filter(|k| per_kind[*k] > 0).collect();
 	let weights: Vec<u32> = kinds.iter().map(|k| if *k == 0 { 5 } else if *k == 1 { 3 } else { 1 }).collect();
 	let result = if kinds.is_empty()
 	{
@@ -365,7 +379,7 @@ pub fn break_one_type(prog: &mut Program, c: &mut Choices) -> Option<Site>
 			target: Some(k),
 			kind,
 			seen: 0,
-			per_kind: [0; 7],
+			per_kind: [0; 8],
 			done: None,
 		};
 		ed.program(&mut funcs);
